@@ -148,8 +148,25 @@ class C02(NetCheck):
                     out["counters"].setdefault("probe", {})["spilling_checked"] = 1
                     if fs > int(cache):
                         rounding_only = fs == -(-int(cache) // 16) * 16
-                        out["viol"].append(dict(prop="C02", oracle="fast_scratch_exceeds_arena_cache", fast=fs, cache=int(cache),
-                                                sig=dict(oracle="fast_scratch_exceeds_arena_cache", rounding_only=rounding_only)))
+                        sig = dict(oracle="fast_scratch_exceeds_arena_cache", rounding_only=rounding_only)
+                        extra = {}
+                        if not rounding_only:
+                            # context for triage: does even the minimum-memory schedule (--optimise Size) of this network need
+                            # more than the configured cache, i.e. does no schedule exist that would fit?
+                            o2 = [x for x in opts]
+                            if "--optimise" in o2:
+                                i = o2.index("--optimise")
+                                del o2[i:i + 2]
+                            o2 += ["--optimise", "Size"]
+                            try:
+                                cr2 = netsim.compile_bytes(res["src"], o2, t1=False)
+                                from . import artefact
+                                fs2 = max(e2["fast_t"].elems() for e2 in artefact.ethosu_ops(artefact.load(cr2["out_bytes"])))
+                                sig["min_schedule_also_exceeds"] = bool(fs2 > int(cache))
+                                extra["min_schedule_fast"] = int(fs2)
+                            except Exception as ex:  # no second artefact: leave the context out (never matches a recorded finding)
+                                extra["min_schedule_error"] = repr(ex)[:120]
+                        out["viol"].append(dict(prop="C02", oracle="fast_scratch_exceeds_arena_cache", fast=fs, cache=int(cache), sig=sig, **extra))
 
 
 class C03(NetCheck):
